@@ -95,6 +95,24 @@ def tail_variants(cert_der):
         exts[:] = saved
     return res
 
+def tail_variants_crl(crl_der):
+    """Same idea for a CRL: crlExtensions [0] is the last member of TBSCertList; drop signatureAlgorithm/signature
+    and rotate each extension to the end."""
+    t = der_parse(crl_der)
+    tbs = t[0][1][0]
+    a0 = [n for n in tbs[1] if n[0] == 0xa0]
+    if not a0:
+        return [der_ser([[0x30, [tbs]]])]
+    exts = a0[0][1][0][1]
+    res = []
+    for i in range(len(exts)):
+        saved = exts[:]
+        exts[:] = exts[:i] + exts[i + 1:] + [exts[i]]
+        res.append(der_ser([[0x30, [tbs]]]))
+        exts[:] = saved
+    return res
+
+
 # ------------------------------------------------------------------ minted material
 CNF = """
 [req]
@@ -271,6 +289,10 @@ def main():
     put('c09_crl', 'crl_ec', [0], [m['ecca'], m['crl_ec']])
     put('c09_crl', 'crl_noca', [0], [b'', m['crl_rsa']])
     put('c09_crl', 'crl_wrongca', [3], [pem2der(rd('EC/256_EC_CA.pem')), m['crl_ec']])
+    for i, v in enumerate(tail_variants_crl(m['crl_rsa_empty']) + tail_variants_crl(m['crl_rsa'])[:1]):
+        put('c09_crl', 'tail_crl_%02d' % i, [0], [b'', v])
+    for i, v in enumerate(tail_variants(pem2der(m['ext_all_rsa']))[:3]):     # CA certificate part with an extension at its very end
+        put('c09_crl', 'tail_ca_%02d' % i, [0], [v, m['crl_rsa_empty']])
     # ---- c09_ocsp_response  [sel][len(CA)][len(subject)][CA][subject][response]
     ec384ca, ec256 = pem2der(rd('EC/384_EC_CA.pem')), pem2der(rd('EC/256_EC.pem'))
     put('c09_ocsp_response', 'sample_good', [0], [ec384ca, ec256, rd('OCSP/responses/OCSP_256_EC_GOOD.der')])
